@@ -2018,4 +2018,11 @@ func TestC11(t *testing.T) {
 		}
 		runSeq(nVal, nUsers, nil, n)
 	}
+
+	// round 5: the same calls as signed transactions in real blocks (FinalizeBlock + Commit), monitor-only (c11blocks_test.go)
+	if hx.ReplayFile() == "" {
+		for i, nb := 0, hx.N(8, 60); i < nb; i++ {
+			blockHistory(t, out, rng, 6+rng.Intn(10))
+		}
+	}
 }
